@@ -180,7 +180,8 @@ class Spec(object):
         return "routed" in res.flags and ("jsq_unequal" in res.flags or "zero_cell_present" in res.flags or "class_change_drawn" in res.flags or "process" in cfg["features"])
 
     def families(self, tier):
-        return focused(tier)
+        from .. import universal
+        return focused(tier) + universal.subset(tier, ["net_", "flex", "process", "ccm", "preempt_reroute", "sched_reroute"])
 
 
 def focused(tier):
